@@ -192,6 +192,18 @@ func init() {
 			}
 			return out
 		}),
+		"(net.IP).String": ext1(func(fr *frame, a []value) value {
+			in, _ := a[0].([]value)
+			ip := make(net.IP, len(in))
+			for k, b := range in {
+				cb, ok := b.(uint8)
+				if !ok {
+					unsupported("net.IP.String of symbolic bytes")
+				}
+				ip[k] = cb
+			}
+			return ip.String()
+		}),
 		"(net.IP).To4": ext1(func(fr *frame, a []value) value {
 			in := a[0].([]value)
 			ip := make(net.IP, len(in))
